@@ -29,7 +29,7 @@ def HookOp.isUnlock : HookOp → Bool
 
 /-- no `unlock()` among the pool calls of this user code -/
 def Hooks.noUnlock (h : Hooks) : Bool :=
-  (h.start ++ h.endCb ++ h.cancelCb ++ h.pull).all fun o => !o.isUnlock
+  (h.start ++ h.endCb ++ h.cancelCb ++ h.pull ++ h.next).all fun o => !o.isUnlock
 
 def SpawnSpec.noUnlock (sp : SpawnSpec) : Bool := sp.hooks.noUnlock
 
